@@ -116,7 +116,7 @@ def required_cells(tier):
 
 
 def cases(tier, seed):
-    nh, nr, npt = (96, 108, 32) if tier == "quick" else (960, 1080, 320)
+    nh, nr, npt = (80, 90, 24) if tier == "quick" else (960, 1080, 320)
     out = [{"kind": "hand", "seed": seed, "idx": i} for i in range(nh)]
     out += [{"kind": "rand", "seed": seed, "idx": i} for i in range(nr)]
     out += [{"kind": "pttempo", "seed": seed, "idx": i} for i in range(npt)]
